@@ -77,9 +77,40 @@ def _alarm(signum, frame):
     raise HarnessTimeout()
 
 
+_CACHES = {"nmods": -1, "objs": []}
+
+
+def _reset_code_under_test():
+    """One run = one fresh 'process' of the library: memoised state that the code
+    under test keeps at module level (functools caches on functions and methods)
+    is cleared, so that a run cannot depend on the runs this worker did before."""
+    if os.environ.get("XSIM_NO_RESET") == "1":  # (to exercise the cli's fresh-interpreter fallback)
+        return
+    mods = [m for n, m in list(sys.modules.items())
+            if (n == "xyzpy" or n.startswith("xyzpy.")) and m is not None]
+    if len(mods) != _CACHES["nmods"]:
+        objs = []
+        for m in mods:
+            for v in list(vars(m).values()):
+                if callable(getattr(v, "cache_clear", None)):
+                    objs.append(v)
+                elif isinstance(v, type) and getattr(v, "__module__", "").startswith("xyzpy"):
+                    for u in list(vars(v).values()):
+                        u = getattr(u, "__func__", u)
+                        if callable(getattr(u, "cache_clear", None)):
+                            objs.append(u)
+        _CACHES["nmods"], _CACHES["objs"] = len(mods), objs
+    for o in _CACHES["objs"]:
+        try:
+            o.cache_clear()
+        except Exception:
+            pass
+
+
 def execute(prop, workload, seed=None, replay=None, params=None, keep_trace=True, tmp=None):
     """One run.  Returns a JSON-able outcome dict."""
     interpose.install()
+    _reset_code_under_test()
     # Every run lives in <XSIM_TMP>/xsimb-XXXXXXXX/xsim-PPPPPPPP-XXXXXXXX: the batch
     # directory is swept when the batch ends (also after a crashed worker), and the
     # fixed-width names keep pickled absolute paths equally long in every process -
